@@ -284,6 +284,10 @@ def run(ctx):
     for _sec in (_sec_shortest, _sec_perp, _sec_iou, _sec_menger, _sec_rank, _sec_misc):
         programs += _sec(rc)
     _sec_intwidth(rc)
+    res.rule("N-dtype", "no primitive stores real values or positions into an array that inherits the dtype of a value argument (np.*_like(values)): the result "
+                        "must not be truncated / wrapped by the dtype of the input")
+    from . import detectors as _d
+    _d.dtype_guard(rc, "N-dtype", ["linear_fit", "knee_ranking", "menger"])
     res.extra_coverage.update({"programs": programs, "disagreements_checked": len(res.findings)})
     res.assumptions += ["real-number reading of the formulas", "points are rows (x, y); arrays of points are treated row-wise",
                         "N-int: integer-typed inputs hold values of magnitude <= 2**29 in int64 arrays, fewer than 2**20 points",
